@@ -97,7 +97,19 @@ def r02_1(ctx: Ctx) -> None:
            "'and' obtains its operands from the atom level only, so it binds tighter than 'or'",
            form=f"{f_and} calls {sorted(got)}")
     loops = [n for n in walk_local(methods[f_and]) if isinstance(n, ast.While)]
-    ok = any("TokenTypes.AND" in txt(lp.test) and any(t == "AND" for t, _ in consumed_tokens(lp))
+    def continues_on_and(lp: ast.While) -> bool:
+        """ the loop goes round again exactly on the strength of a test for a following AND: in its own test, in a flag
+            the body sets from such a test, or in the test of a `break` """
+        if "TokenTypes.AND" in txt(lp.test):
+            return True
+        if isinstance(lp.test, ast.Name):
+            return any("TokenTypes.AND" in txt(n.value) for n in walk_local(lp)
+                       if isinstance(n, ast.Assign) and any(isinstance(t, ast.Name) and t.id == lp.test.id for t in n.targets))
+        if isinstance(lp.test, ast.Constant) and lp.test.value is True:
+            return any(isinstance(n, ast.If) and "TokenTypes.AND" in txt(n.test) and any(isinstance(b, ast.Break) for b in walk_local(n))
+                       for n in walk_local(lp))
+        return False
+    ok = any(continues_on_and(lp) and any(t == "AND" for t, _ in consumed_tokens(lp))
              and any(n == f_atom for n, _ in parse_calls(lp)) for lp in loops)
     ctx.ob("R02.1", RP, methods[f_and], f"Parser.{f_and}", "and-chain loop", ok,
            "a chain `a and b and c` is collected by looping while the next token is AND",
@@ -618,7 +630,9 @@ def r02_6(ctx: Ctx) -> None:
     for n in walk_local(fci):
         if isinstance(n, ast.Assign) and isinstance(n.targets[0], ast.Name) and n.targets[0].id in flags:
             if isinstance(n.value, ast.Constant) and n.value.value is True:
-                raised = raised or any(t and any(e is o or txt(e) == txt(o) for o in opens) for e, t in path_facts(fcfg, n))
+                from ..flow import inline_reaching as _reach2
+                raised = raised or any(t and any(e is o or txt(e) == txt(o) or txt(o) in txt(_reach2(fcfg, n, e)) for o in opens)
+                                       for e, t in path_facts(fcfg, n))
             elif any(txt(n.value) == txt(o) for o in opens):
                 raised = True
     ok = bool(opens) and bool(closes) and bool(takes) and raised
